@@ -361,3 +361,34 @@ Proof. bad_test_arg (bs (px_text ++ "if header :bogus ""a"" ""b"" { } }")). Qed.
 Example ex_tag_extension_in_test :
   exists e, parse gen_tables (bs (px_text ++ "if header :regex ""a"" ""b"" { } }")) = Reject e 56 6.
 Proof. bad_test_arg (bs (px_text ++ "if header :regex ""a"" ""b"" { } }")). Qed.
+
+(* 14. bytes that are no token, inside a block *)
+Example ex_lexical_error : exists ll, parse gen_tables (bs (px_text ++ "% keep;")) = Reject EUnknownToken 46 ll.
+Proof.
+  assert (E : map strip_pos (fst (lex (bs (px_text ++ "% keep;")))) = px_toks) by (vm_compute; reflexivity).
+  exact (lexical_error_rejected gen_tables gen_twf (bs (px_text ++ "% keep;")) [bs "fileinto"] None 1 46
+           ltac:(rewrite E; exact px_wf) eq_refl).
+Qed.
+
+(* 15. a missing block: `if size :over 100K stop;` *)
+Example ex_missing_block :
+  parse gen_tables (bs (px_text ++ "if size :over 100K stop; }")) = Reject EExpected 65 4.
+Proof.
+  set (text := bs (px_text ++ "if size :over 100K stop; }")).
+  let toks := eval vm_compute in (fst (lex text)) in
+  let p := eval vm_compute in (firstn 10 toks) in
+  let r := eval vm_compute in (skipn 10 toks) in
+  match r with
+  | ?tn :: ?t1 :: ?t2 :: ?t3 :: ?t :: ?rest =>
+      let gd := eval vm_compute in (get_command_instance gen_tables [bs "fileinto"] (t_val tn)) in
+      match gd with
+      | inl ?d =>
+          let aa := eval vm_compute in (hd (mkArg [] [] false None None None None) (d_args d)) in
+          assert (W : exists nt, wf_test gen_tables [bs "fileinto"] px_test nt) by (eexists; unfold px_test; simple_t);
+          destruct W as (nt & W);
+          exact (missing_block_rejected gen_tables gen_twf text p tn [t1; t2; t3] t rest [bs "fileinto"] None 1 d aa px_test nt
+                   px_wf ltac:(vm_compute; reflexivity) eq_refl ltac:(vm_compute; reflexivity) eq_refl eq_refl eq_refl eq_refl
+                   W eq_refl ltac:(vm_compute; reflexivity) eq_refl eq_refl)
+      end
+  end.
+Qed.
